@@ -70,7 +70,9 @@ add("C09", "other",
     "order and returns 0 iff something was written; the torch tool's _FeatureProcessorDataset.__getitem__ (whole body) reads this utterance's path "
     "as float64 with force_as and key, applies the documented channel rules / ValueErrors, then pre-processors, computer (or a one-column matrix), "
     "post-processors in order and a float cast; the torch tool's resume logic removes exactly the stripped manifest lines; the torch STFT "
-    "functional meets the compute_full specification (see C14); both tools use a given --seed (0 included). The numerical equality with the "
+    "functional meets the compute_full specification (see C14); both tools use a given --seed (0 included); every configuration argument is "
+    "_load_config of exactly one text - the named file's content if it can be opened, the argument itself otherwise - so the three syntaxes reach "
+    "the tools as the parser's reading of that text. The numerical equality with the "
     "library pipeline, the three configuration syntaxes and the rest of the two script-like functions are exercised end to end by the bounded "
     "stand-in." + MIX, TB)
 add("C10", "other",
